@@ -179,9 +179,27 @@ class HalvingLoop(C.LoopSpec):
         frame.locals["name"] = SStr(z3.Const(f"name!{c.decl().name()}", sym.StrS))
 
 
-NameLoop(FN, 3, prop="C06", name=QUAL + "#loop3")
-DoublingLoop(FN, 4, prop="C06", name=QUAL + "#loop4")
-HalvingLoop(FN, 5, prop="C06", name=QUAL + "#loop5")
+# loop ordinals in SOURCE order, located in the source that is being verified (the labels keep their historical numbers): the naming
+# loop is the `for ... in declarations.items()` statement, the two `while` loops after it search a free suffix.  (Before it: the
+# selection of the active declarations and the enumeration-literal pass, executed concretely.)
+def _loop_ordinals():
+    import ast as _ast
+    import inspect as _inspect
+    import textwrap as _tw
+
+    tree = _ast.parse(_tw.dedent(_inspect.getsource(VhdlScope.complete_setup)))
+    loops = sorted((n for n in _ast.walk(tree) if isinstance(n, (_ast.For, _ast.While))), key=lambda n: (n.lineno, n.col_offset))
+    naming = [i for i, n in enumerate(loops, 1) if isinstance(n, _ast.For) and _ast.unparse(n.iter) == "declarations.items()"]
+    whiles = [i for i, n in enumerate(loops, 1) if isinstance(n, _ast.While) and naming and i > naming[0]]
+    if len(naming) != 1 or len(whiles) < 2:
+        raise AssertionError("complete_setup: naming loop / suffix search loops not found")
+    return naming[0], whiles[0], whiles[1]
+
+
+_N, _D, _H = _loop_ordinals()
+NameLoop(FN, _N, prop="C06", name=QUAL + "#loop3")
+DoublingLoop(FN, _D, prop="C06", name=QUAL + "#loop4")
+HalvingLoop(FN, _H, prop="C06", name=QUAL + "#loop5")
 
 
 # ---- cases: the kind of the declared object, with / without user name, hint, parent scope ------
@@ -255,3 +273,132 @@ c = Case("symbolic-name", [Built([], lambda env: SObj(VhdlScope, _used_names=SSe
                            Built([], lambda env: SStr(z3.Const("reserved_name", sym.StrS)), lambda asg: "None", lambda asg: None)], reserve_spec)
 c.native = False
 con.cases.append(c)
+
+
+# ---- enumeration literals: written unchanged (`type T is (idle, run);`), declared with their type in this scope ------------------
+# For ARBITRARY names already in use (reserved words, names of the enclosing scopes): the setup is accepted only if every literal
+# is a legal identifier, the literals of one type differ (case-insensitively) and none of them is in use; afterwards they ARE in use
+# (the naming loop's fresh-name obligation then keeps every other object of the scope away from them).
+import cohdl as _cohdl  # noqa: E402
+
+
+class _GoodEnum(_cohdl.enum.Enum):
+    idle = 0
+    Run = 1
+
+
+class _CaseEnum(_cohdl.enum.Enum):
+    idle = 0
+    IDLE = 1
+
+
+class _InvalidEnum(_cohdl.enum.Enum):
+    ok = 0
+    two__underscores = 1
+
+
+def enum_scope_shape(enum_cls, with_parent):
+    def make(env):
+        parent = None
+        if with_parent:
+            parent = SObj(VhdlScope, _used_names=SSet(z3.Const("U_parent", SetS)), _subscopes=[], _parent=None)
+        decl = SObj(VhdlScope.Declaration, obj=enum_cls, active=True, name_hint=None, name="NOT_SET")
+        return SObj(VhdlScope, _setup_complete=False, _parent=parent, _subscopes=[], _declarations={id(enum_cls): decl}, _used_names=SSet(z3.Const("U_own", SetS)))
+
+    return Built([], make, lambda asg: "None", lambda asg: None)
+
+
+def enum_spec(enum_cls, verdict, with_parent):
+    def spec(sx, self):
+        if verdict == "reject":
+            sx.reject(AssertionError)
+        real = sx.real_args[0]
+        from pyvc import ops
+
+        lits = [ops.str_term(m.lower()) for m in enum_cls.__members__]
+        before = [z3.Const("U_own", SetS)] + ([z3.Const("U_parent", SetS)] if with_parent else [])
+
+        def holds(res):
+            used = real.fields["_used_names"].term
+            return z3.And(*[z3.Not(z3.IsMember(t, b)) for t in lits for b in before], *[z3.IsMember(t, used) for t in lits])
+
+        return C.Pred(holds, "accepted: no literal was in use before, all literals are in use afterwards")
+
+    return spec
+
+
+_real_valid_identifier = VhdlScope.__dict__["_valid_identifier"].__func__ if "_valid_identifier" in VhdlScope.__dict__ else None
+
+
+def _ident_model_concrete(it, name, fallback):
+    if isinstance(name, str) and _real_valid_identifier is not None:
+        from pyvc import ops
+
+        r = _real_valid_identifier(name, fallback)  # literal / class names are concrete: the real (pure) function decides
+        if not hasattr(it, "ident_terms"):
+            it.ident_terms = []
+        it.ident_terms.append(ops.str_term(r))  # a result of _valid_identifier (VALID by its contract)
+        return r
+    return _ident_model(it, name, fallback)
+
+
+for enum_cls, verdict in ((_GoodEnum, "ok"), (_CaseEnum, "reject"), (_InvalidEnum, "reject")):
+    for with_parent in (True, False):
+        c = Case(f"enum-literals:{enum_cls.__name__}{'-sub' if with_parent else '-top'}", [enum_scope_shape(enum_cls, with_parent)], enum_spec(enum_cls, verdict, with_parent))
+        c.native = False
+        if verdict == "ok":
+            c.may_reject = AssertionError  # a literal that is already in use
+        if _real_valid_identifier is not None:
+            c.models = [(_real_valid_identifier, _ident_model_concrete)]
+
+        def setup(it, ctx, args, env, enum_cls=enum_cls):
+            it.case_decl = lambda it_: SObj(VhdlScope.Declaration, obj=enum_cls, active=True, name_hint=None, name="NOT_SET")
+
+        c.setup = setup
+        c.custom_replay = "contracts.c06_names.replay_enum_literals"
+        con_setup = C.CONTRACTS[QUAL]
+        con_setup.cases.append(c)
+
+_ENUM_LITERAL_DESIGN = '''
+import re
+import cohdl
+from cohdl import std, Bit, Port, Signal, enum
+class LitA(cohdl.Entity):
+    clk = Port.input(Bit)
+    inp = Port.input(Bit)
+    o = Port.output(Bit)
+    def architecture(self):
+        state_0 = Signal[Bit](False, name="state_0")
+        @std.sequential(std.Clock(self.clk))
+        async def proc():
+            state_0.next = self.inp
+            await cohdl.true
+            self.o <<= state_0
+t = std.VhdlCompiler.to_string(LitA)
+print("TWICE" if re.search(r"type \\\\w+ is \\\\([^)]*\\\\bstate_0\\\\b", t) and re.search(r"signal state_0\\\\b", t) else "ONCE")
+class Mode(enum.Enum):
+    signal = enum.auto()
+    idle = enum.auto()
+class LitB(cohdl.Entity):
+    clk = Port.input(Bit)
+    o = Port.output(Bit)
+    def architecture(self):
+        mode = Signal[Mode](Mode.idle, name="mode")
+        @std.sequential(std.Clock(self.clk))
+        def proc():
+            mode.next = Mode.signal
+            self.o <<= mode == Mode.idle
+try:
+    std.VhdlCompiler.to_string(LitB)
+    print("RESERVED-ACCEPTED")
+except AssertionError:
+    print("RESERVED-REJECTED")
+'''
+
+
+def replay_enum_literals(payload):
+    from contracts.c06_extra import _run_design
+
+    rc, out = _run_design(_ENUM_LITERAL_DESIGN)
+    return {"reproduced": "TWICE" in out or "RESERVED-ACCEPTED" in out,
+            "detail": "a signal named like a state literal / an enumeration literal that is a reserved word: " + out[-120:]}
